@@ -44,6 +44,9 @@ pub struct Features {
     /// Focus profile: many deliveries, tight capacity, every shift with reloads bound to one shared resource
     /// (rare states: several tours drawing from the same resource).
     pub reload_focus: bool,
+    /// Focus profile: one vehicle type with few vehicles, every vehicle with two shifts, many multi-task jobs
+    /// (rare states: both shifts of one vehicle in use, jobs competing for them).
+    pub shift_focus: bool,
 }
 
 impl Features {
@@ -56,7 +59,7 @@ impl Features {
             multi_job, multi_dim, multi_tw, multi_place, tags, skills, groups, compat, order, value, limits, tour_size,
             multi_shift, open_end, latest_departure, unreachable, multi_profile, scale, reloads, shared_reload,
             opt_breaks, req_breaks, relations, nonmetric, asymmetric, objectives, same_location, tight, many_vehicles,
-            replacement, service, pickups, unreachable_random, reload_focus
+            replacement, service, pickups, unreachable_random, reload_focus, shift_focus
         );
         v
     }
@@ -92,6 +95,13 @@ impl Features {
             f.opt_breaks = false;
             f.multi_shift = false;
         }
+        if !f.reload_focus && allowed.multi_shift && allowed.multi_job && p.chance(0.06) {
+            f.shift_focus = true;
+            f.multi_shift = true;
+            f.multi_job = true;
+            f.many_vehicles = false;
+            f.tight = allowed.tight;
+        }
         f
     }
 
@@ -105,6 +115,7 @@ impl Features {
             pickups: true,
             unreachable_random: true,
             reload_focus: false,
+            shift_focus: false,
         }
     }
 }
@@ -214,7 +225,7 @@ pub fn generate(seed: u64, limits: &GenLimits, allowed: &Features) -> GenProblem
     let mut p = Prng::derive(seed, "workload");
     let f = Features::random(&mut p, allowed);
     let n_jobs = if p.chance(0.1) { p.usize(1, 3.min(limits.max_jobs)) } else { p.usize(1, limits.max_jobs) };
-    let n_jobs = if f.reload_focus { limits.max_jobs.max(n_jobs) } else { n_jobs };
+    let n_jobs = if f.reload_focus || f.shift_focus { limits.max_jobs.max(n_jobs) } else { n_jobs };
     let dims = if f.multi_dim { p.usize(2, 3) } else { 1 };
     let horizon: i64 = *p.pick(&[8_000, 20_000, 40_000]);
     let n_loc = if f.same_location { p.usize(2, (n_jobs / 2).max(2) + 1) } else { p.usize(2, 2 * n_jobs + 3) };
@@ -333,6 +344,7 @@ pub fn generate(seed: u64, limits: &GenLimits, allowed: &Features) -> GenProblem
     let n_profiles = if f.multi_profile { 2 } else { 1 };
     let profile_names: Vec<String> = (0..n_profiles).map(|i| format!("prof{i}")).collect();
     let n_types = cx.p.usize(1, limits.max_vehicle_types);
+    let n_types = if f.shift_focus { 1 } else { n_types };
     let mut vehicles = vec![];
     let mut resources = vec![];
     for t in 0..n_types {
@@ -350,7 +362,7 @@ pub fn generate(seed: u64, limits: &GenLimits, allowed: &Features) -> GenProblem
         }
         costs.insert("distance".into(), json!(cd));
         costs.insert("time".into(), json!(ct));
-        let n_shifts = if f.multi_shift && cx.p.chance(0.6) { 2 } else { 1 };
+        let n_shifts = if f.multi_shift && (cx.p.chance(0.6) || f.shift_focus) { 2 } else { 1 };
         let mut shifts = vec![];
         let mut t_start = cx.p.range(0, horizon / 8);
         for _s in 0..n_shifts {
